@@ -4,13 +4,13 @@ PROPERTY_GROUPS = {
     'C02': ['rep', 'mp4'],
     'C03': ['mp4'],
     'C04': ['mp4'],
-    'C06': ['rep', 'timing', 'dt', 'load'],
+    'C06': ['rep', 'timing', 'dt', 'load', 'httprange'],
     'C08': ['timing'],
     'C09': ['timing', 'rep', 'dt'],
-    'C11': ['playready'],
+    'C11': ['playready', 'mp4'],
     'C12': ['mps'],
     'C13': ['httprange'],
-    'C14': ['events', 'scte35'],
+    'C14': ['events', 'scte35', 'mp4'],
     'C16': ['events', 'bufreader', 'httprange', 'rep', 'timing', 'mps'],
     'C19': ['dt'],
     'C20': ['bufreader'],
